@@ -110,8 +110,10 @@ def stat_equal(a, b):
     """bit-exact for numbers, NaN == NaN, '' == ''"""
     if isinstance(a, str) or isinstance(b, str):
         return a == b
-    if a is None or b is None:
-        return a is None and b is None
+    def empty(x):
+        return x is None or (isinstance(x, float) and x != x)
+    if empty(a) or empty(b):
+        return empty(a) and empty(b)         # an absent value is written as an empty (NaN) cell
     try:
         fa, fb = float(a), float(b)
     except (TypeError, ValueError):
